@@ -111,8 +111,8 @@ pub fn oracle(ctx: &mut Ctx, m: &Movie) -> Check {
 pub fn run(ctx: &mut Ctx) {
     // ---- small scope, exhaustive over chunk structure ----
     ctx.stage("enum");
-    let nmax = ctx.pick(6usize, 9usize);
-    let draws = ctx.pick(4u64, 12u64);
+    let nmax = ctx.pick(8usize, 10usize);
+    let draws = ctx.pick(8u64, 16u64);
     let base_seed = ctx.stage_seed(false);
     let mut idx: u64 = 0;
     let weak = (
@@ -163,7 +163,7 @@ pub fn run(ctx: &mut Ctx) {
     ctx.extra.insert("enum_cases_total".into(), serde_json::json!(idx));
     // ---- random larger movies ----
     ctx.stage("random");
-    let cases = ctx.pick(6000u32, 150_000u32) / ctx.nshards;
+    let cases = ctx.pick(100_000u32, 1_000_000u32) / ctx.nshards;
     let maxn = ctx.pick(120usize, 1500usize);
     ctx.run_prop(gen::table_movie(3, maxn), cases, |ctx, m| oracle(ctx, m));
 }
